@@ -14,4 +14,7 @@ def run(ctx):
             if fs != "default":
                 r.rule += "@" + fs
         out += res
+    if ctx.tier == "thorough":
+        from vlib import witness
+        out.append(witness.rule("C02", ['OptionalNeedsOption', 'OptionalNullableNeedsOption', 'WrapperIsNotOption'], "C02.R1c"))
     return out
